@@ -281,6 +281,105 @@ func init() {
 			return ints(out)
 		}))
 	}
+	// direct predicate: CodeRange is (smallest, largest) code point, independent of map iteration order:
+	// the call is repeated on freshly built maps
+	ops["cmapx.coderange"] = func(f Fields) string {
+		return cxPanic(guard(func() string {
+			seen := map[string]bool{}
+			var order []string
+			for rep := 0; rep < 24; rep++ {
+				var st cmap.Subtable
+				switch f["kind"] {
+				case "0":
+					st = &cmap.Format0{}
+				case "4":
+					m := cmap.Format4{}
+					for k, v := range cxParseMap32(f) {
+						m[uint16(k)] = v
+					}
+					st = m
+				case "6":
+					m, err := cmap.VerifDecode6(f.Hex("bytes"), false)
+					if err != nil {
+						return "na"
+					}
+					st = cmap.Format4(m)
+				default:
+					st = cxParseMap32(f)
+				}
+				lo, hi := st.CodeRange()
+				s := fmt.Sprintf("%d:%d", lo, hi)
+				if !seen[s] {
+					seen[s] = true
+					order = append(order, s)
+				}
+			}
+			sort.Strings(order)
+			return strings.Join(order, "|")
+		}))
+	}
+	// direct predicate: InstallCMap files the subtable under the keys its code range demands, GetBest
+	// then returns it; repeated because CodeRange iterates over a Go map
+	ops["cmapx.installspec"] = func(f Fields) string {
+		return cxPanic(guard(func() string {
+			seen := map[string]bool{}
+			var order []string
+			for rep := 0; rep < 24; rep++ {
+				var sub cmap.Subtable
+				m32 := cxParseMap32(f)
+				if f["kind"] == "4" {
+					m := cmap.Format4{}
+					for k, v := range m32 {
+						m[uint16(k)] = v
+					}
+					sub = m
+				} else {
+					sub = m32
+				}
+				font := &sfnt.Font{}
+				font.InstallCMap(sub)
+				var keys []cmap.Key
+				for k := range font.CMapTable {
+					keys = append(keys, k)
+				}
+				sort.Slice(keys, func(i, j int) bool { return cxKeyLess(keys[i], keys[j]) })
+				parts := make([]string, len(keys))
+				shared := true
+				for i, k := range keys {
+					parts[i] = fmt.Sprintf("%d.%d.%d", k.PlatformID, k.EncodingID, k.Language)
+					if string(font.CMapTable[k]) != string(font.CMapTable[keys[0]]) {
+						shared = false
+					}
+				}
+				best := "same"
+				got, err := font.CMapTable.GetBest()
+				if err != nil {
+					best = cxErrClass(err)
+				} else {
+					if reflect.TypeOf(got) != reflect.TypeOf(sub) {
+						best = "other-type"
+					}
+					for c := range m32 {
+						if got.Lookup(rune(c)) != sub.Lookup(rune(c)) {
+							best = "differs"
+						}
+					}
+					for _, c := range []rune{0, 0xFFFF, 0x10000, 0x10FFFF} {
+						if got.Lookup(c) != sub.Lookup(c) {
+							best = "differs"
+						}
+					}
+				}
+				s := fmt.Sprintf("keys=%s;shared=%v;best=%s", strings.Join(parts, ","), shared, best)
+				if !seen[s] {
+					seen[s] = true
+					order = append(order, s)
+				}
+			}
+			sort.Strings(order)
+			return strings.Join(order, "|")
+		}))
+	}
 	ops["cmapx.install"] = func(f Fields) string {
 		return cxPanic(guard(func() string {
 			font := &sfnt.Font{}
@@ -779,6 +878,7 @@ func cxCase06(c *Ctx, r *Rng) {
 		c.Case(Direct, "cmapx.mac0", fmt.Sprintf("bytes=%s codes=%s", out[3:], ints(cxMacRunes(r))), true)
 	}
 	cxCaseMac(c, r)
+	cxCaseRange(c, r)
 	// format 6
 	first := Pick(r, []int{0, 32, r.Intn(300), 0xFFF0 + r.Intn(16), r.Intn(0x10000)})
 	count := Pick(r, []int{0, 1, 2, 5, r.Range(0, 40), r.Range(0, 300)})
@@ -977,6 +1077,60 @@ func cxCaseMac(c *Ctx, r *Rng) {
 		}
 		g := c.Case(Verdict, "cmapx.get", fmt.Sprintf("key=1.0.0 codes=%s tab=1.0.0:%s", runes, hx(sub)), true)
 		c.Stat("mac_get", cxClass(g))
+	}
+}
+
+// cxCaseRange: CodeRange of every subtable type and InstallCMap's choice of keys, on small maps (1, 2,
+// 3 entries: the first element visited matters) and on larger ones, with entries at 0, 0xFFFF, 0x10000,
+// 0x10FFFF and above U+FFFF.
+func cxCaseRange(c *Ctx, r *Rng) {
+	special := []int{0, 1, 65, 0xFFFE, 0xFFFF, 0x10000, 0x10001, 0x1F600, 0x10FFFF}
+	n := Pick(r, []int{0, 1, 1, 1, 2, 2, 3, 3, 4, r.Range(5, 40)})
+	// format 12
+	m := map[int]int{}
+	for len(m) < n {
+		code := Pick(r, []int{Pick(r, special), r.Intn(0x10000), 0x10000 + r.Intn(0x100000), r.Intn(300)})
+		m[code] = Pick(r, []int{0, r.Range(1, 60000)})
+	}
+	arg := func(m map[int]int) string {
+		keys := make([]int, 0, len(m))
+		for k := range m {
+			keys = append(keys, k)
+		}
+		sort.Ints(keys)
+		parts := make([]string, len(keys))
+		for i, k := range keys {
+			parts[i] = fmt.Sprintf("%d:%d", k, m[k])
+		}
+		return strings.Join(parts, ",")
+	}
+	beyond := false
+	for k := range m {
+		if k > 0xFFFF {
+			beyond = true
+		}
+	}
+	c.Stat("coderange_map12", fmt.Sprintf("n=%s beyondBMP=%v", bucket(len(m)), beyond))
+	c.Case(Direct, "cmapx.coderange", "kind=12 map="+arg(m), true)
+	c.Case(Direct, "cmapx.installspec", "kind=12 map="+arg(m), true)
+	// format 4
+	m4 := map[int]int{}
+	n4 := Pick(r, []int{0, 1, 1, 2, 2, 3, 3, r.Range(4, 40)})
+	for len(m4) < n4 {
+		m4[Pick(r, []int{0, 0xFFFF, 0xFFFE, 1, r.Intn(0x10000), r.Intn(300)})] = r.Range(1, 60000)
+	}
+	c.Stat("coderange_map4", "n="+bucket(len(m4)))
+	c.Case(Direct, "cmapx.coderange", "kind=4 map="+arg(m4), true)
+	c.Case(Direct, "cmapx.installspec", "kind=4 map="+arg(m4), true)
+	// format 6 (decodes into the Format4 map type) and format 0
+	first := Pick(r, []int{0, 1, 65, 0xFFF0, 0xFFFF, r.Intn(0x10000)})
+	count := Pick(r, []int{0, 1, 1, 2, 3, r.Range(0, 30)})
+	if first+count > 0x10000 {
+		count = 0x10000 - first
+	}
+	c.Case(Direct, "cmapx.coderange", "kind=6 bytes="+hx(cxFormat6(r, first, count, 0)), true)
+	if r.Chance(1, 10) {
+		c.Case(Direct, "cmapx.coderange", "kind=0", false)
 	}
 }
 
